@@ -537,8 +537,15 @@ class SVGPath(SVGShape, SVGCommandSeq):
         if not inplace:
             target = copy.deepcopy(self)
 
+        def _subpath_might_paint(subpath):
+            # judge each subpath with this shape's own paint: a stroked open subpath
+            # has no area but still draws
+            probe = copy.deepcopy(self)
+            probe.d = subpath
+            return probe.might_paint()
+
         target.d = " ".join(
-            subpath for subpath in self.subpaths() if SVGPath(d=subpath).might_paint()
+            subpath for subpath in self.subpaths() if _subpath_might_paint(subpath)
         )
 
         return target
